@@ -1,3 +1,5 @@
 INIT Init
 NEXT Next
-CONSTANT DropIds = TRUE
+CONSTANTS
+  DropIds = TRUE
+  FoldAnyRight = FALSE
